@@ -64,13 +64,16 @@ end Resampler
 
 /-! ### data -/
 
-/-- mirrors: data.rs::num_frames (`end - start` underflows for an inverted slice) -/
+/-- mirrors: data.rs::num_frames — `end.min(frames.len()).saturating_sub(start)`: a slice reaching past
+    the data is clamped to the data, an inverted slice is empty (`Nat` subtraction saturates like
+    `saturating_sub`).  Never fails; kept in `Except` for its callers. -/
 def numFrames (len : Nat) (slice : Option (Nat × Nat)) : Except Fault Nat :=
   match slice with
-  | some (s, e) => if s ≤ e then .ok (e - s) else .error .overflow
+  | some (s, e) => .ok (min e len - s)
   | none => .ok len
 
-/-- mirrors: data.rs::frame_at_index (`frames[index + start]` is a checked slice index) -/
+/-- mirrors: data.rs::frame_at_index (`frames[index + start]` is a checked slice index: the model keeps
+    the check, `C04_never_outside_slice` proves that it never fails) -/
 def frameAtIndex (index : Nat) (frames : Array (Frame α)) (slice : Option (Nat × Nat)) :
     Except Fault (Option (Frame α)) :=
   match numFrames frames.size slice with
